@@ -320,3 +320,60 @@ def selfcheck(rng, n=6):
         mn, va = z1 / z0, z2 / z0 - (z1 / z0)**2
         worst = max(worst, abs(mine[0] - float(mn)) / float(mn), abs(mine[1] - float(va)) / float(va))
     return worst
+
+
+# ----------------------------------------------------------------------------- the code's algebra with EXACT special functions
+
+class ExactSpecial:
+    """While active, tsdate.approx / tsdate.hypergeo run as pure Python (`py_func`) with the three Laplace
+    approximations replaced by mpmath's exact 2F1 / 1F1 / U (50 digits).  The moment kernels then are *exact*
+    closed forms: whatever they return must agree with quadrature of the stated density to ~1e-8, for means AND
+    variances.  This isolates the algebra around the special functions (signs, factors, parameter shifts) from the
+    accuracy of the Laplace approximation."""
+
+    def __enter__(self):
+        import mpmath as mp
+        import tsdate.approx
+        import tsdate.hypergeo
+        mp.mp.dps = 50
+        self.saved = []
+
+        def h2f1(a, b, c, x):
+            assert c > 0 and a >= 0 and b >= 0 and c >= a and x < 1
+            return float(mp.log(mp.hyp2f1(a, b, c, x)))
+
+        def h1f1(a, b, x):
+            assert b > a > 0
+            return float(mp.log(mp.hyp1f1(a, b, x)))
+
+        def hu(a, b, x):
+            assert b >= a > 0 and x > 0
+            u0 = mp.hyperu(a, b, x)
+            return float(mp.log(u0)), float(-a * mp.hyperu(a + 1, b + 1, x) / u0)
+
+        def safe_exp(x):
+            try:
+                return math.exp(x)
+            except OverflowError:
+                return math.inf
+
+        for mod in (tsdate.approx, tsdate.hypergeo):
+            for k, v in list(vars(mod).items()):
+                if hasattr(v, "py_func"):
+                    self.saved.append((mod, k, v))
+                    setattr(mod, k, v.py_func)
+            if hasattr(mod, "exp"):
+                self.saved.append((mod, "exp", mod.exp))
+                mod.exp = safe_exp
+        for k, f in (("_hyp2f1_laplace", h2f1), ("_hyp1f1_laplace", h1f1), ("_hyperu_laplace", hu)):
+            setattr(tsdate.hypergeo, k, f)
+        return self
+
+    def __exit__(self, *a):
+        for mod, k, v in reversed(self.saved):
+            setattr(mod, k, v)
+
+    def call(self, name, *args):
+        import tsdate.approx
+        with np.errstate(all="ignore"):
+            return getattr(tsdate.approx, name)(*args)
